@@ -348,25 +348,26 @@ func (n *vRbfNode) stateJ() vJ {
 			out["l"] = vJ{"k": "OfferSent", "fee": int64(l.ProposedFee),
 				"d": r.sigDesc(key)}
 		case *ClosePending:
-			if l.Party != lntypes.Local {
-				r.t.Fatalf("local peer state with party %v", l.Party)
-			}
 			out["l"] = vJ{"k": "Pending", "d": vDescJ(l.CloseTx)}
+			if l.Party != lntypes.Local {
+				out["l"] = vJ{"k": "Bad", "type": "ClosePending of the wrong party"}
+			}
 		case *CloseErr:
 			out["l"] = vJ{"k": "Err"}
 		default:
-			r.t.Fatalf("local peer state %T", l)
+			// a shape the model does not have: reported as a mismatch
+			out["l"] = vJ{"k": "Bad", "type": fmt.Sprintf("%T", l)}
 		}
 		switch rs := s.PeerState.GetForParty(lntypes.Remote).(type) {
 		case *RemoteCloseStart:
 			out["r"] = vJ{"k": "Start"}
 		case *ClosePending:
-			if rs.Party != lntypes.Remote {
-				r.t.Fatalf("remote peer state with party %v", rs.Party)
-			}
 			out["r"] = vJ{"k": "Pending", "d": vDescJ(rs.CloseTx)}
+			if rs.Party != lntypes.Remote {
+				out["r"] = vJ{"k": "Bad", "type": "ClosePending of the wrong party"}
+			}
 		default:
-			r.t.Fatalf("remote peer state %T", rs)
+			out["r"] = vJ{"k": "Bad", "type": fmt.Sprintf("%T", rs)}
 		}
 		return out
 	case *CloseFin:
@@ -778,7 +779,8 @@ func vRunRbf(t *testing.T, out *vWriter, r *vrng, c vRbfCase) {
 // vTamper rewrites one message in flight (the peer is then not honest).
 // kinds: 1 second sig field set, 2 sig moved to another field, 3 wrong closee
 // script, 4 fee raised above what was signed, 5 ClosingSig replayed as a
-// duplicate, 6 closer script changed (new valid address), 7 sigs removed.
+// duplicate, 6 closer script changed (new valid address), 7 sigs removed,
+// 8/9 fee set to the closer's balance +1 / +0.
 func vTamper(r *vrng, kind int, m lnwire.Message, n *vRbfNode) (lnwire.Message, bool) {
 	switch mm := m.(type) {
 	case *lnwire.ClosingComplete:
@@ -835,6 +837,16 @@ func vTamper(r *vrng, kind int, m lnwire.Message, n *vRbfNode) (lnwire.Message, 
 			return &c, true
 		case 6:
 			c.CloserScript = vScript(r, int(r.rng(0, 5)))
+			return &c, true
+		case 8, 9:
+			// the announced fee exactly at (9) / one above (8) the closer's
+			// commitment balance: RemoteCanPayFees boundary
+			st := n.env.CloseSigner.(*vSigner).lc.State()
+			bal := st.LocalCommitment.RemoteBalance.ToSatoshis()
+			if kind == 8 {
+				bal++
+			}
+			c.FeeSatoshis = bal
 			return &c, true
 		case 7:
 			if tap {
@@ -1070,13 +1082,40 @@ func TestVerifRbf(t *testing.T) {
 		bobSat: -1, scrA: vScript(fixed, 2), scrB: vScript(fixed, 2),
 		shutA: true, shutB: true, ratesA: []int64{3, 6, 9}, ratesB: []int64{4, 8, 12}})
 
+	// (5) RemoteCanPayFees boundary: a closing_complete announcing a fee one
+	// above / exactly at the closer's balance
+	for k, adv := range []int{8, 9, 8, 9} {
+		ct := plain
+		if k >= 2 {
+			ct = channeldb.SingleFunderTweaklessBit
+		}
+		vRunRbf(t, out, fixed.fork(uint64(10+k)), vRbfCase{
+			name: fmt.Sprintf("w_cannot_pay_%d_%d", adv, k), ct: ct,
+			bobSat: int64(2000 + 1000*k), dustA: 354, dustB: 354,
+			scrA: p2wkh(), scrB: p2wkh(), addrA: true, shutA: k%2 == 0,
+			shutB: true, ratesA: []int64{2}, ratesB: []int64{3}, adversary: adv})
+	}
+
+	// (6) every kind of tampered message at least twice (first message of
+	// the matching type in flight is rewritten)
+	for adv := 1; adv <= 9; adv++ {
+		for k := 0; k < 2; k++ {
+			vRunRbf(t, out, fixed.fork(uint64(100+10*adv+k)), vRbfCase{
+				name: fmt.Sprintf("w_tamper_%d_%d", adv, k), ct: plain,
+				bobSat: -1, dustA: 354, dustB: 354,
+				scrA: p2wkh(), scrB: vScript(fixed, 1+k), addrA: true,
+				shutA: true, shutB: k == 1, ratesA: []int64{2, 4},
+				ratesB: []int64{3}, adversary: adv})
+		}
+	}
+
 	n := vCases(90, 2500)
 	for i := 0; i < n; i++ {
 		r := master.fork(uint64(9_000_000 + i))
 		c := vRbfRandomCase(r, i)
 		switch r.intn(12) {
 		case 0, 1:
-			c.adversary = int(r.rng(1, 7))
+			c.adversary = int(r.rng(1, 9))
 		case 2:
 			c.hasty = true
 		case 3:
